@@ -23,7 +23,9 @@ EVIDENCE = {
             'read-write cache directories, connects to firmware A, to a different firmware B, or to a firmware whose log and '
             'parameter tables announce the same checksum, and ends cleanly or with a crash (at a seeded instant of the '
             'connect sequence) after which every file written in that life keeps a seeded prefix, optionally followed by a '
-            'zero or garbage tail.',
+            'zero or garbage tail.  In a fifth of the later lives the cache files of the announced checksums are removed or '
+            'made unreadable by somebody else after the Crazyflie object listed them (before open_link, or between two '
+            'connections of one object).',
     'directed': 'every byte offset of the log-table and parameter-table cache files of a small firmware (crash after a '
                 'complete first connect), followed by a reconnect',
     'real': ['TocCache (fetch/insert/_encoder/_decoder)', 'TocFetcher', 'Log.refresh_toc', 'Param.refresh_toc',
